@@ -193,7 +193,7 @@ class Adapter:
     units = []
     min_unlabeled = 0
 
-    def make(self, seed, **kw):
+    def make(self, seed, sym=True, inputs=None, **kw):
         raise NotImplementedError
 
     def call(self, qs, s, b, sym, table=None, return_utilities=True):
@@ -210,7 +210,7 @@ class ARandom(Adapter):
     selection = "proportional"
     units = ["skactiveml.pool._random_sampling:RandomSampling.query"]
 
-    def make(self, seed, **kw):
+    def make(self, seed, sym=True, inputs=None, **kw):
         return pool().RandomSampling(random_state=seed, **kw)
 
     def call(self, qs, s, b, sym, table=None, return_utilities=True):
@@ -231,7 +231,7 @@ class AUncertainty(Adapter):
         if method == "expected_average_precision":
             self.units.append("skactiveml.pool._uncertainty_sampling:expected_average_precision")
 
-    def make(self, seed, **kw):
+    def make(self, seed, sym=True, inputs=None, **kw):
         cm = [[0.0, 1.0], [2.0, 0.0]] if self.cost else None
         return pool().UncertaintySampling(method=self.method, cost_matrix=cm, random_state=seed, **kw)
 
@@ -267,7 +267,7 @@ def sym_query(c, prop, strat, n, mode, b):
     a = ADAPTERS[strat]
     s = gen_scenario(c, n, mode, b, independent=a.independent, min_unlabeled=a.min_unlabeled)
     env = Env(c)
-    qs = a.make(s.seed)
+    qs = a.make(s.seed, sym=True)
     xs0 = s.X.copy()
     y0 = s.y.copy()
     try:
@@ -289,11 +289,14 @@ def replay_query(inputs, label, prop, strat, n, mode, b):
     a = ADAPTERS[strat]
     s = real_scenario(inputs, n, mode)
     seeds = [s.seed] + ([] if inputs.get("__scripted__") else list(range(30)))
-    for seed in seeds:
+    tables = [inputs.get("__clf__")]
+    if a.needs_clf:
+        tables.append([])  # second attempt: uniform probabilities for every row (all utilities tie)
+    for seed, table in [(sd, tb) for tb in tables for sd in seeds]:
         env = Env()
-        qs = a.make(seed)
+        qs = a.make(seed, sym=False, inputs=inputs)
         try:
-            out = a.call(qs, s, b, False, table=inputs.get("__clf__"))
+            out = a.call(qs, s, b, False, table=table)
         except Exception as e:
             if label == "query_terminates_without_error":
                 return True, f"{strat} n={n} mode={mode} b={b}: {e!r}"
@@ -313,3 +316,194 @@ def _short(out):
         return np.asarray(out).tolist()
     except Exception:
         return repr(out)[:200]
+
+
+# --------------------------------------------------------------------------
+# more adapters
+# --------------------------------------------------------------------------
+class AQBC(Adapter):
+    name = "QueryByCommittee[KL_divergence]"
+    needs_clf = True
+    product_abstraction = True
+    units = ["skactiveml.pool._query_by_committee:QueryByCommittee.query",
+             "skactiveml.pool._query_by_committee:QueryByCommittee._aggregate_predict_probas",
+             "skactiveml.pool._query_by_committee:average_kl_divergence",
+             "skactiveml.pool._query_by_committee:_check_ensemble"]
+
+    def make(self, seed, sym=True, inputs=None, **kw):
+        return pool().QueryByCommittee(method="KL_divergence", random_state=seed, **kw)
+
+    def ensemble(self, sym, table, K):
+        if sym:
+            return [models.StubClassifier(classes=list(range(K)), n_classes=K, gen=g) for g in (1, 2)]
+        t1 = [(row, p) for g, row, p in (table or []) if g % 2 == 1]
+        t2 = [(row, p) for g, row, p in (table or []) if g % 2 == 0]
+        return [models.real_table_classifier(t1, n_classes=K), models.real_table_classifier(t2, n_classes=K)]
+
+    def call(self, qs, s, b, sym, table=None, return_utilities=True):
+        return qs.query(s.X, s.y, self.ensemble(sym, table, s.K), candidates=s.cand, batch_size=b,
+                        return_utilities=return_utilities)
+
+
+class ACoreSet(Adapter):
+    name = "CoreSet"
+    independent = False
+    units = ["skactiveml.pool._core_set:CoreSet.query", "skactiveml.pool._core_set:k_greedy_center",
+             "skactiveml.pool._core_set:_update_distances"]
+
+    def make(self, seed, sym=True, inputs=None, **kw):
+        return pool().CoreSet(random_state=seed, **kw)
+
+    def call(self, qs, s, b, sym, table=None, return_utilities=True):
+        return qs.query(s.X, s.y, candidates=s.cand, batch_size=b, return_utilities=return_utilities)
+
+
+class AGreedyX(Adapter):
+    name = "GreedySamplingX"
+    independent = False
+    units = ["skactiveml.pool._greedy_sampling:GreedySamplingX.query", "skactiveml.pool._greedy_sampling:_greedy_sampling",
+             "skactiveml.pool._greedy_sampling:_measure_distance"]
+
+    def make(self, seed, sym=True, inputs=None, **kw):
+        return pool().GreedySamplingX(random_state=seed, **kw)
+
+    def call(self, qs, s, b, sym, table=None, return_utilities=True):
+        return qs.query(s.X, s.y, candidates=s.cand, batch_size=b, return_utilities=return_utilities)
+
+
+class ADiscriminative(Adapter):
+    independent = False
+    supports_rows = False
+    needs_clf = True
+
+    def __init__(self, greedy):
+        self.greedy = greedy
+        self.name = f"DiscriminativeAL[greedy_selection={greedy}]"
+        self.units = ["skactiveml.pool._discriminative_al:DiscriminativeAL.query"]
+
+    def make(self, seed, sym=True, inputs=None, **kw):
+        return pool().DiscriminativeAL(greedy_selection=self.greedy, random_state=seed, **kw)
+
+    def call(self, qs, s, b, sym, table=None, return_utilities=True):
+        return qs.query(s.X, s.y, self.clf(sym, table, 2), candidates=s.cand, batch_size=b,
+                        return_utilities=return_utilities)
+
+
+def make_stub_clusterer():
+    """KMeans-like clusterer by contract: fit_predict returns a label in range(n_clusters) per sample
+    (arbitrary; chosen by the solver / explorer). random_state=None draws from the global generator."""
+    class StubClusterer:
+        calls = []
+
+        def __init__(self, n_clusters=2, random_state=None, **kw):
+            self.n_clusters = n_clusters
+            self.random_state = random_state
+
+        def fit_predict(self, X, y=None):
+            c = core.ctx()
+            n = len(X)
+            labs = [c.choose([(k, True) for k in range(self.n_clusters)], f"cluster[{i}]") for i in range(n)]
+            if not hasattr(c, "inputs"):
+                c.inputs = {}
+            c.inputs["__clusters__"] = labs
+            return arrays.SymNd(np.array(labs, dtype=int))
+
+        def fit(self, X, y=None):
+            self.labels_ = self.fit_predict(X)
+            return self
+    return StubClusterer
+
+
+def real_table_clusterer(labels):
+    class TableClusterer:
+        def __init__(self, n_clusters=2, random_state=None, **kw):
+            self.n_clusters = n_clusters
+
+        def fit_predict(self, X, y=None):
+            return np.array(labels[:len(X)], dtype=int)
+    return TableClusterer
+
+
+def _typicality_stub(X, uncovered_samples_mapping, k, eps=1e-7):
+    """contract of skactiveml.pool._typi_clust._typicality: -inf outside the cluster, a positive finite
+    value for every sample of the cluster"""
+    c = core.ctx()
+    n = X.shape[0]
+    out = F.full(n, -np.inf)
+    for i in arrays.cidx(arrays.asnd(uncovered_samples_mapping)):
+        t = core.fresh_float(c.fresh_name(f"typi{i}_"))
+        c.add(t.r > 0)
+        out[int(i)] = t
+    return out
+
+
+class ATypiClust(Adapter):
+    name = "TypiClust"
+    independent = False
+    supports_rows = False
+    units = ["skactiveml.pool._typi_clust:TypiClust.query"]
+
+    def make(self, seed, sym=True, inputs=None, **kw):
+        if sym:
+            clusterer = make_stub_clusterer()
+        else:
+            clusterer = real_table_clusterer((inputs or {}).get("__clusters__", [0] * 16))
+        return pool().TypiClust(random_state=seed, cluster_algo=clusterer, k=1, **kw)
+
+    def call(self, qs, s, b, sym, table=None, return_utilities=True):
+        return qs.query(s.X, s.y, candidates=s.cand, batch_size=b, return_utilities=return_utilities)
+
+
+class ABald(Adapter):
+    needs_clf = True
+    product_abstraction = True
+
+    def __init__(self, greedy):
+        self.greedy = greedy
+        self.name = "GreedyBALD" if greedy else "BatchBALD"
+        self.units = ["skactiveml.pool._bald:_GeneralBALD.query", "skactiveml.pool._bald:batch_bald",
+                      "skactiveml.pool._query_by_committee:QueryByCommittee._aggregate_predict_probas"]
+
+    def make(self, seed, sym=True, inputs=None, **kw):
+        K = pool().GreedyBALD if self.greedy else pool().BatchBALD
+        return K(random_state=seed, **kw)
+
+    def call(self, qs, s, b, sym, table=None, return_utilities=True):
+        ens = AQBC().ensemble(sym, table, s.K)
+        return qs.query(s.X, s.y, ens, candidates=s.cand, batch_size=b, return_utilities=return_utilities)
+
+
+class _JointEntropyStub:
+    """contract of skactiveml.pool._bald._DynamicJointEntropy: compute_batch returns one finite real per sample
+    (an uninterpreted function of the batch chosen so far and of the sample's position)"""
+
+    def __init__(self, M, max_N, K, C, random_state):
+        self.added = 0
+
+    def add_variables(self, log_probs):
+        self.added += log_probs.shape[0]
+        return self
+
+    def compute_batch(self, log_probs_B_K_C):
+        c = core.ctx()
+        B = log_probs_B_K_C.shape[0]
+        vals = [core.fresh_float(f"jointH_{self.added}_{i}") for i in range(B)]
+        if not hasattr(c, "inputs"):
+            c.inputs = {}
+        c.inputs.setdefault("__jointH__", []).append(vals)
+        return arrays.SymNd(arrays._to_obj(vals), float)
+
+
+def _cond_entropy_stub(log_probs_N_K_C):
+    N = log_probs_N_K_C.shape[0]
+    return arrays.SymNd(arrays._to_obj([core.fresh_float(f"condH_{i}") for i in range(N)]), float)
+
+
+from symx import stubs as _stubs  # noqa: E402
+_stubs.MODULE_STUBS[("skactiveml.pool._typi_clust", "_typicality")] = _typicality_stub
+_stubs.MODULE_STUBS[("skactiveml.pool._bald", "_DynamicJointEntropy")] = _JointEntropyStub
+_stubs.MODULE_STUBS[("skactiveml.pool._bald", "_compute_conditional_entropy")] = _cond_entropy_stub
+
+for _a in (AQBC(), ACoreSet(), AGreedyX(), ADiscriminative(True), ADiscriminative(False), ATypiClust(), ABald(True),
+           ABald(False)):
+    register(_a)
